@@ -11,6 +11,10 @@ package topologyaware
 // fakes, which record what the policy tells the runtime.
 
 import (
+	"os"
+	"strconv"
+	"strings"
+
 	cfgapi "github.com/containers/nri-plugins/pkg/apis/config/v1alpha1/resmgr/policy/topologyaware"
 	"github.com/containers/nri-plugins/pkg/cpuallocator"
 	"github.com/containers/nri-plugins/pkg/resmgr/cache"
@@ -173,6 +177,57 @@ func verifSortedKeys(m map[string]*verifContainer) []string {
 	return ks
 }
 
+// verifMemless lists the NUMA nodes of the current fake machine without memory.
+var verifMemless = map[int]bool{}
+
+const verifFakeSysfsRoot = "/verif-fake-sysfs"
+
+func verifMeminfoContent(id int) []byte {
+	total := 67108864 // kB
+	if verifMemless[id] {
+		total = 0
+	}
+	n := strconv.Itoa(id)
+	return []byte("Node " + n + " MemTotal:       " + strconv.Itoa(total) + " kB\nNode " + n + " MemFree:        " + strconv.Itoa(total/2) + " kB\n")
+}
+
+// verifInstallMeminfo gives every NUMA node a meminfo file that the real
+// (*node).MemoryInfo parses: natively real files in a scratch directory,
+// under the engine the file-system model below.
+func verifInstallMeminfo(sys system.System, nnodes int) {
+	root := verifFakeSysfsRoot
+	if !verifSymbolic() {
+		dir, err := os.MkdirTemp("", "gosymex-sysfs-")
+		if err != nil {
+			panic(err)
+		}
+		root = dir
+		for id := 0; id < nnodes; id++ {
+			d := root + "/node" + strconv.Itoa(id)
+			if err := os.MkdirAll(d, 0o755); err != nil {
+				panic(err)
+			}
+			if err := os.WriteFile(d+"/meminfo", verifMeminfoContent(id), 0o644); err != nil {
+				panic(err)
+			}
+		}
+	}
+	system.VerifSetNodePaths(sys, root)
+}
+
+// verifFSReadFile is the engine's model of os.ReadFile for this package: only
+// the meminfo files of the fake machine exist.
+func verifFSReadFile(name string) ([]byte, error) {
+	prefix := verifFakeSysfsRoot + "/node"
+	if strings.HasPrefix(name, prefix) && strings.HasSuffix(name, "/meminfo") {
+		id, err := strconv.Atoi(name[len(prefix) : len(name)-len("/meminfo")])
+		if err == nil {
+			return verifMeminfoContent(id), nil
+		}
+	}
+	return nil, os.ErrNotExist
+}
+
 // verifEpoch numbers the requests of a history (for "delivered in the same request").
 var verifEpoch int
 
@@ -218,6 +273,18 @@ func verifMachineMem(k int, caps []int64) (system.System, []*libmem.Node, int) {
 			{ID: 1, MemType: system.MemoryTypeDRAM, Normal: true, Distance: []int{21, 10, 28}},
 			{ID: 2, MemType: system.MemoryTypePMEM, Normal: true, Distance: []int{17, 28, 10}},
 		}
+	case 4: // as 2, but NUMA node 1 has no memory, plus a CPU-less PMEM node #4 closest to node 1
+		for id := 0; id < 8; id++ {
+			cpus = append(cpus, system.VerifCPU{ID: id, Pkg: id / 4, Node: id / 2, Core: id / 2, Cluster: id / 2, Kind: P, EPP: system.EPPUnknown, CacheGroup: -1})
+		}
+		nodes = []system.VerifNode{
+			{ID: 0, Pkg: 0, MemType: system.MemoryTypeDRAM, Normal: true, Distance: []int{10, 12, 21, 21, 28}},
+			{ID: 1, Pkg: 0, MemType: system.MemoryTypeDRAM, Normal: true, Distance: []int{12, 10, 21, 21, 17}},
+			{ID: 2, Pkg: 1, MemType: system.MemoryTypeDRAM, Normal: true, Distance: []int{21, 21, 10, 12, 21}},
+			{ID: 3, Pkg: 1, MemType: system.MemoryTypeDRAM, Normal: true, Distance: []int{21, 21, 12, 10, 28}},
+			{ID: 4, Pkg: 0, MemType: system.MemoryTypePMEM, Normal: true, Distance: []int{28, 17, 21, 28, 10}},
+		}
+		verifMemless = map[int]bool{1: true}
 	default:
 		for id := 0; id < 8; id++ {
 			cpus = append(cpus, system.VerifCPU{ID: id, Pkg: id / 4, Node: id / 2, Core: 0, Die: 0, Cluster: 0, Kind: P, EPP: system.EPPUnknown, CacheGroup: -1})
@@ -240,11 +307,17 @@ func verifMachineMem(k int, caps []int64) (system.System, []*libmem.Node, int) {
 		}
 	}
 	sys := system.VerifNewSystem(cpus, nodes)
+	if k == 4 {
+		verifInstallMeminfo(sys, len(nodes))
+	}
 	var mnodes []*libmem.Node
 	for _, n := range nodes {
 		capacity := int64(64) << 30
 		if caps != nil {
 			capacity = caps[n.ID]
+		}
+		if verifMemless[n.ID] {
+			capacity = 0
 		}
 		mn, err := libmem.NewNode(n.ID, libmem.TypeForSysfs(n.MemType), capacity, true, sys.Node(n.ID).CPUSet(), n.Distance)
 		if err != nil {
